@@ -1,5 +1,6 @@
 """C16 - pool creation charges exact fees; pool parameters are unique and immutable."""
 import re
+from rules.common import DataIs
 from rules.common import (PredTrue, PredFalse, TryOk, CallTrue, VariantEdge, EQ, no_effects, where, exact_origins,
                           all_origins, flat_atoms, overrides, may_tags, pool_writes, field_val, show, ops_of,
                           pred_test, eq_test, origin_match)
@@ -39,7 +40,8 @@ CREATE_GUARDS = [
     ("count>=2", [PredTrue("len(denoms)>=MIN", rel(DEN, ">=", r"^Const\(2_usize\)$"))], ()),
     ("count==decimals", [PredTrue("len(denoms)==len(decimals)", eq_test(DEN, DEC))], ()),
     ("cp=>2", [PredTrue("len(denoms)==2", eq_test(DEN, r"^Const\(2_usize\)$"))], (ASSUME_CP,)),
-    ("amp!=0", [PredFalse("amp!=0", eq_test(r"^msg\.CreatePool\.pool_type\.StableSwap\.amp$", r"^Const\(0_u64\)$"))], (ASSUME_SS,)),
+    ("amp!=0", [PredFalse("amp!=0", eq_test(r"^msg\.CreatePool\.pool_type\.StableSwap\.amp$", r"^Const\(0_u64\)$")),
+                DataIs("amp is the literal 0", r"^msg\.CreatePool\.pool_type\.StableSwap\.amp$", "0")], (ASSUME_SS,)),      # `amp == 0` / pattern `amp: 0`
     ("count<=MAX", [PredTrue("len(denoms)<=MAX", rel(DEN, "<=", r"^Const\(4_usize\)$"))], ()),
     ("fees valid", [TryOk(r"mantra_dex_std::fee::.*::is_valid$")], ()),
     ("identifier unused", [PredFalse("pool exists", lambda pn, pa: pn == "is_ok" and origin_match(pa[0], r"^Store\(POOLS\)")),
